@@ -19,6 +19,7 @@ import (
 	"sync/atomic"
 	"time"
 
+	"github.com/vmware/go-ipfix/pkg/entities"
 	"github.com/vmware/go-ipfix/pkg/exporter"
 )
 
@@ -189,4 +190,80 @@ func c14burst(env *Env, out *sync.Mutex) {
 	env.Emit("C14 burst", "B ok")
 	env.Count("udp burst of template registrations across a refresh tick")
 	out.Unlock()
+}
+
+// c14tcpSlow: a collector that applies back-pressure - it reads nothing for 400 ms while the
+// application sends several megabytes, so that application writes block in the kernel across
+// many connection-check ticks (50 ms). The background check must not disturb them: no send may
+// fail and the stream must stay whole. Scenario "tcp slow".
+func c14tcpSlow(env *Env, out *sync.Mutex, rng *Rng) {
+	ln, err := net.Listen("tcp", "127.0.0.1:0")
+	if err != nil {
+		panic(err)
+	}
+	defer ln.Close()
+	p := &c14peer{}
+	peerDone := make(chan struct{})
+	go func() {
+		defer close(peerDone)
+		c, err := ln.Accept()
+		if err != nil {
+			return
+		}
+		defer c.Close()
+		c.(*net.TCPConn).SetReadBuffer(64 << 10)
+		time.Sleep(400 * time.Millisecond)
+		hdr := make([]byte, 4)
+		for {
+			if _, err := io.ReadFull(c, hdr); err != nil {
+				if err != io.EOF {
+					p.junk.Add(1)
+				}
+				return
+			}
+			l := int(binary.BigEndian.Uint16(hdr[2:]))
+			if l < 4 {
+				p.junk.Add(1)
+				return
+			}
+			b := make([]byte, l)
+			copy(b, hdr)
+			if _, err := io.ReadFull(c, b[4:]); err != nil {
+				p.junk.Add(int64(l))
+				return
+			}
+			p.add(c14parse(b))
+		}
+	}()
+	ep, err := exporter.InitExportingProcess(exporter.ExporterInput{
+		CollectorAddress: ln.Addr().String(), CollectorProtocol: "tcp", ObservationDomainID: 1,
+		CheckConnInterval: 50 * time.Millisecond})
+	if err != nil {
+		panic(err)
+	}
+	a := &c14app{ep: ep}
+	a.sendTemplate()
+	var panics atomic.Int64
+	start := time.Now()
+	for i := 0; i < 400 && time.Since(start) < 3*time.Second; i++ {
+		a.sendDataN(3000) // 24 kB per message
+	}
+	c14closers(ep, 1, &panics).Wait()
+	<-peerDone
+	c14emit(env, out, "tcp", "slow", 1, a, p, panics.Load(), "")
+}
+
+func (a *c14app) sendDataN(n int) string {
+	tid := a.tids[0]
+	set := entities.NewSet(false)
+	set.PrepareSet(entities.Data, tid)
+	a.next++
+	id := a.next
+	for i := 0; i < n; i++ {
+		set.AddRecord(c14elems(id+uint64(i)<<40), tid)
+	}
+	_, err := a.ep.SendSet(set)
+	res := c14class(err)
+	a.log = append(a.log, c14entry{'D', tid, n, id, res})
+	return res
 }
